@@ -6,6 +6,7 @@
  * White-box: the implementation translation unit is included. */
 #include "db_impl.c"
 #include "common.h"
+#include "iowrap.h"
 #include <dirent.h>
 #include <sys/stat.h>
 
@@ -222,10 +223,22 @@ int main(int argc, char **argv) {
   snprintf(g_dir, sizeof(g_dir), "%s", argv[1]);
   parse_opts(argc, argv);
   setvbuf(stdout, NULL, _IOFBF, 1 << 20);
+  k3_init(g_dir);
   while (getline(&line, &cap, stdin) > 0) {
     int n = split_line(line, a, 16);
     if (n == 0) continue;
-    printf("CALL %ld %s\n", callno++, a[0]);
+    printf("CALL %ld %s\n", callno, a[0]);
+    k3_mark('A', callno, a[0]);
+    callno++;
+#ifdef K3
+    if (!strcmp(a[0], "fail") && n >= 5) {
+      k3fail_at = k3calls + atol(a[1]); k3fail_errno = atoi(a[2]); k3fail_persistent = atoi(a[3]); k3fail_partial = atoi(a[4]);
+      printf("RET 0\n"); k3_mark('Z', callno - 1, "fail"); continue;
+    }
+    if (!strcmp(a[0], "nofail")) {
+      k3fail_at = -1; k3fail_persistent = 0; printf("RET failed=%ld\n", k3failed); k3_mark('Z', callno - 1, "nofail"); continue;
+    }
+#endif
     if (!strcmp(a[0], "open")) {
       int rc = do_open();
       printf("RET %d vnext=%llu lastseq=%llx\n", rc, g_db ? (unsigned long long)g_db->versions->next_file_number : 0ULL,
@@ -342,8 +355,11 @@ int main(int argc, char **argv) {
       printf("RET badcmd\n");
     }
     fflush(stdout);
+    k3_mark('Z', callno - 1, a[0]);
   }
+  k3_mark('A', callno, "exit-close");
   do_close();
+  k3_mark('Z', callno, "exit-close");
   if (g_cache) ldb_lru_destroy(g_cache);
   if (g_bloom) ldb_bloom_destroy(g_bloom);
   return 0;
